@@ -6,16 +6,24 @@ NEEDS_KNUT = True
 RULE = ("generated accepted journals with 2-5 commodities and price histories (sparse/dense, direct, inverse, chained via USD), "
         "positions through zero, liabilities, accruals; about 12% with a price declaration removed; valued `knut balance -v V --csv -a` "
         "with cumulative columns, random window start, --close on/off; every third case with one or two `-m level[:1][,regex]` rules "
-        "(levels 1-3, level 0 behind a regex) and/or `--remap regex` over the journal's account names.  Spec verdict: every row of the "
+        "(levels 1-3, level 0 behind a regex) and/or `--remap regex` over the journal's account names; half of the cases with index "
+        "1 mod 3 restrict the report with `--commodity` (one or two of the journal's commodities), 30% of the cases with index 1 or 2 "
+        "mod 3 with `--account regex` (alone or together with --commodity / -m / --remap); corpus/C03: a report with --commodity "
+        "whose shown commodity is priced through commodities that are not shown.  Spec verdict: every row of the "
         "asset/liability section on which an asset/liability account of the journal lands (itself, or the row remap and the first "
         "matching mapping rule send it to) must lie, in every column, within the summed allowance (sum over the accounts that land on "
-        "the row, Spec.MarkToMarketMappedSpec.sources_of, of ValuationSpec.step_bound) * 1e-8 of the summed expectation (sum of "
-        "ValuationSpec.mtm_expected = sum_c Q_T(a,c)*p_T(c) - sum_c Q_(W-1)*p_(W-1), from the flat bookings and the dated price "
-        "declarations): Spec.ValuationMappedSpec.mtm_row_mapped; an empty cell counts as 0, a row that is not printed as 0 in every "
-        "column; an expectation that is undefined although a report was printed is a failure (C03_expected_defined); if some booking "
-        "needs a price that does not exist on its day the command must fail (no report).  The model's CSV must be byte-identical.  "
+        "the row and pass --account, Spec.MarkToMarketMappedSpec.sources_of, of ValuationWhereSpec.step_bound_where) * 1e-8 of the "
+        "summed expectation (sum of ValuationWhereSpec.mtm_expected_where = sum_c Q_T(a,c)*p_T(c) - sum_c Q_(W-1)*p_(W-1) over the "
+        "held commodities c that pass --commodity, from the flat bookings and the dated price declarations of the WHOLE journal -- "
+        "the filters select what the report adds up, not what is priced or valued): Spec.ValuationWhereSpec.mtm_row_where_mapped, "
+        "which without filters is Spec.ValuationMappedSpec.mtm_row_mapped; an empty cell counts as 0, a row that is not printed as 0 "
+        "in every column; a printed row on which no account that passes --account lands must be empty; an expectation that is "
+        "undefined although a report was printed is a failure (C03_expected_defined); if some booking -- of a shown commodity or "
+        "not -- needs a price that does not exist on its day the command must fail (no report), and it may fail only for a reason.  "
+        "A report whose window is empty (--from after --to or after the journal) has no column to judge.  The model's CSV must be "
+        "byte-identical.  "
         "Non-trivial: valued report produced with at least 2 price declarations of one commodity; distinct by input.  The evidence "
-        "counts the rows evaluated (plain / aggregated or moved), the rows not printed, and the rows left out.")
+        "counts the rows evaluated (plain / aggregated or moved / on filtered reports), the rows not printed, and the rows left out.")
 TRUSTED_BASE = [
     "Coq 8.16.1 kernel", "extraction + OCaml driver drv_c03.ml (finds the printed line of a row: the CSV shows last segments in tree "
     "order; full paths are rebuilt from the order and the set of possible rows, else rows are found by a unique last segment)",
@@ -24,8 +32,9 @@ TRUSTED_BASE = [
 ]
 ASSUMPTIONS = ["when the full paths of the printed rows cannot be rebuilt unambiguously, rows whose last segment is not unique in the "
                "A/L section are skipped by the spec verdict (counted in the evidence: rows_skipped_ambiguous_name)",
-               "the truncation allowance is an upper bound (per account that lands on the row: bookings on the account in the window "
-               "+ days x held commodities + 1); that the model's row stays within it is proved (C03_model_meets_spec, "
+               "the truncation allowance is an upper bound (per account that lands on the row and passes --account: bookings on the "
+               "account in a shown commodity in the window + days x shown held commodities + 1); that the model's row stays within it "
+               "is proved for every configuration (C03_model_meets_spec_where_mapped; without filters C03_model_meets_spec, "
                "C03_model_meets_spec_mapped)"]
 TECHNIQUE = ("Coq: Abel-summation and truncation lemmas about an executable model of Valuate/ComputePrices; closed-form mark-to-market "
              "specification evaluated on the binary's CSV; byte-exact model/implementation correspondence")
@@ -69,15 +78,37 @@ LEVEL_TEXT = ("Proved (Coq, closed under the global context): (1) end to end ove
               "the model's row (sum of the node's cells over any duplicate-free list of commodities that contains what the aggregated "
               "accounts hold) is within sum step_bound * 1e-8 of sum mtm_expected, so within_bound accepts it; behind it "
               "C03_windowed_mapped_held (each account charged for its own commodities) and C03_unbooked_cell (a cell without a booking of "
-              "a non-zero quantity receives no value: the instance quantity = 0, error = 0 of the cell invariant).")
+              "a non-zero quantity receives no value: the instance quantity = 0, error = 0 of the cell invariant). (7) Reports restricted "
+              "by --account / --commodity (Spec.ValuationWhereSpec, no hypothesis on the filters): the filters are the Where predicate of "
+              "the report's query and reach neither ComputePrices nor Valuate, so prices (price_on), quantities (qty_upto) and the "
+              "missing-price condition are those of the whole journal and only the sum changes -- held_where = the held commodities c "
+              "with cfg_where cfg a c; C03_windowed_mapped_where: a row b of asset/liability type, over any duplicate-free list of "
+              "commodities that pass --commodity and contains what the aggregated accounts hold of those, shows the sum over the accounts "
+              "that land on it and pass --account of the mark-to-market change of their shown commodities, up to the sum of their tight "
+              "step counts; C03_model_meets_spec_where_mapped (the verdict this check evaluates on EVERY valued report): "
+              "mtm_row_where_mapped exists, lists these accounts, every entry carries an expectation (from C03_held_price_every_day) and "
+              "the model's row is within sum step_bound_where * 1e-8 of sum mtm_expected_where (C03_step_bound_where_suffices, "
+              "C03_expected_where_sum), so within_bound accepts it; C03_model_meets_spec_where: the same for an account shown as itself "
+              "(mtm_row_where, row over held_where); C03_filtered_out_row_zero: a row on which no account that passes --account lands is "
+              "exactly zero; C03_where_unfiltered / C03_where_mapped_unfiltered: where every commodity of the account passes (in "
+              "particular without filters) the new specification IS mtm_row / mtm_row_mapped.  C03_example_filtered_report: --commodity "
+              "^A$ on an account holding A and D, A priced through D: the report shows 1.125, 2.25, 4.5 = mtm_row_where, while the "
+              "unfiltered mtm_row (2.125, 3.25, 5.5) does not describe it.")
 LEVEL_NOTE = ("Trusted: kernel, extraction, harness, hand-written model (sampled tie), and the driver's way of finding the printed line of "
               "a row (see TRUSTED_BASE). Side conditions of the report theorems: posting accounts syntactically valid (postings_syntactic, "
-              "the parser's guarantee as in C02/C04/C05), the row is of asset/liability type with a valid name, the commodities pass "
-              "--commodity (the generator of this check sets no --account/--commodity filter), non-empty window, column = a period end; "
-              "the per-account theorems (C03_windowed, C03_model_meets_spec) in addition: the account is shown as itself. Not proved "
+              "the parser's guarantee as in C02/C04/C05), the row is of asset/liability type with a valid name, non-empty window, "
+              "column = a period end; the list of commodities the row is summed over passes --commodity and contains the shown "
+              "commodities of the aggregated accounts (the commodity keys of the node: nothing else can be there, mapped_report_cells); "
+              "the per-account theorems (C03_windowed, C03_model_meets_spec, C03_model_meets_spec_where) in addition: the account is "
+              "shown as itself; the theorems of parts (2)-(6) in addition ask every commodity of the account to pass the filters, part "
+              "(7) does not. Not proved "
               "(decided per run by the closed form on the binary's cells): the printed, collapsed row text (row_value is the sum of the "
               "tree's cells over the commodities).  Measured with the mutation `ComputePrices hands a day the prices of the day before`: "
-              "199 of 400 cases fail the verdict, 21 of them first on an aggregated or moved row.")
+              "199 of 400 cases fail the verdict, 21 of them first on an aggregated or moved row.  Filtered reports: with the unfiltered "
+              "expectation (mtm_row_mapped) in the driver 36 of the 400 clean quick cases fail, with mtm_row_where_mapped none (seeds 1-5); "
+              "against the seeded change C12e (ComputePrices/Valuate given the --commodity filter: price declarations between two "
+              "commodities that are not shown are dropped) 1-11 generated cases per seed fail by exit class on filtered reports "
+              "(seeds 1-13), and the corpus case fails by value: `value of Assets:Depot shown 1225, mark-to-market 1229.5`.")
 
 def plan(tier, seed):
     if tier == "quick":
@@ -116,8 +147,11 @@ def distribution(cases):
          "mapped_reports": 0,
          # rows of the A/L section the spec verdict evaluated / left out (see drv_c03.ml):
          "rows_checked_plain": 0, "rows_checked_aggregated_or_moved": 0, "cases_with_aggregated_rows_checked": 0,
-         "rows_not_printed_checked_as_zero": 0, "rows_skipped_ambiguous_name": 0, "rows_skipped_no_source": 0,
-         "rows_skipped_source_not_AL": 0, "expectations_undefined": 0, "reports_rows_located_by_path": 0}
+         "rows_not_printed_checked_as_zero": 0, "rows_skipped_ambiguous_name": 0, "rows_without_source": 0,
+         "rows_skipped_source_not_AL": 0, "expectations_undefined": 0, "reports_rows_located_by_path": 0,
+         # reports restricted by --account / --commodity (Spec.ValuationWhereSpec):
+         "with_commodity_filter": 0, "with_account_filter": 0, "filtered_reports": 0,
+         "rows_checked_on_filtered_reports": 0, "rows_without_passing_account_checked_empty": 0}
     for c in cases:
         ok = c.observed.startswith("OK")
         d["ok" if ok else "err"] += 1
@@ -128,14 +162,19 @@ def distribution(cases):
         d["with_mapping"] += cfg["map"] != "-"
         d["with_remap"] += cfg["remap"] != "-"
         d["mapped_reports"] += ok and (cfg["map"] != "-" or cfg["remap"] != "-")
+        d["with_commodity_filter"] += cfg["com"] != "-"
+        d["with_account_filter"] += cfg["acc"] != "-"
+        d["filtered_reports"] += ok and (cfg["com"] != "-" or cfg["acc"] != "-")
         k = _counts(c)
         d["rows_checked_plain"] += k.get("plain", 0)
         d["rows_checked_aggregated_or_moved"] += k.get("mapped", 0)
         d["cases_with_aggregated_rows_checked"] += k.get("mapped", 0) > 0
         d["rows_not_printed_checked_as_zero"] += k.get("absent", 0)
         d["rows_skipped_ambiguous_name"] += k.get("ambiguous", 0)
-        d["rows_skipped_no_source"] += k.get("nosrc", 0)
+        d["rows_without_source"] += k.get("nosrc", 0)
         d["rows_skipped_source_not_AL"] += k.get("nonal", 0)
         d["expectations_undefined"] += k.get("undefined", 0)
         d["reports_rows_located_by_path"] += k.get("bypath", 0)
+        d["rows_checked_on_filtered_reports"] += k.get("filtered", 0)
+        d["rows_without_passing_account_checked_empty"] += k.get("zero", 0)
     return d
